@@ -147,6 +147,22 @@ pub fn run_case(case: &Case) -> (Vec<(String, String)>, Info) {
                 if l2.hash != full.hash {
                     v.push((format!("C18|hash_lost_on_wire|{merged_s}"), "the lite block's hash after a wire round trip differs from the full block's".into()));
                 }
+                // "contains in full": what the receiver reconstructs for a kept transaction - including
+                // the coordinates of its outputs, which the receiver's generate() assigns and a light
+                // wallet stores - must be what the full block says
+                for t2 in l2.transactions.iter().filter(|t| t.transaction_type != TransactionType::SPV) {
+                    if let Some(tf) = full.transactions.iter().find(|t| t.signature == t2.signature) {
+                        let c2: Vec<(u64, u64, u8, u64)> = t2.to.iter().map(|s| (s.block_id, s.tx_ordinal, s.slip_index, s.amount)).collect();
+                        let cf: Vec<(u64, u64, u8, u64)> = tf.to.iter().map(|s| (s.block_id, s.tx_ordinal, s.slip_index, s.amount)).collect();
+                        if c2 != cf {
+                            v.push((
+                                format!("C18|kept_tx_outputs_relocated_after_wire|{merged_s}"),
+                                format!("after a wire round trip a kept transaction's outputs sit at {:?}, in the full block at {:?}", c2.first(), cf.first()),
+                            ));
+                            break;
+                        }
+                    }
+                }
                 if !full.transactions.is_empty() {
                     let root = MerkleTree::generate(&l2.transactions).map(|t| t.get_root_hash());
                     if root != Some(full.merkle_root) {
